@@ -93,5 +93,7 @@ func main() {
 	if cfg.Out == "" {
 		cfg.Out = "/verif/.work/report-" + cfg.Prop + ".json"
 	}
+	caseMarkPath = cfg.Out + ".current"
 	r(cfg)
+	os.Remove(caseMarkPath)
 }
